@@ -68,6 +68,14 @@ impl SecondaryTransaction {
         read_only: bool,
         update: bool,
     ) -> StorageResult<Self> {
+        #[cfg(feature = "verif")]
+        crate::verif::point(format!(
+            "txn.start(t{},ro={},upd={})",
+            table.table_id(),
+            read_only,
+            update
+        ))
+        .await;
         // pin a snapshot at version manager
         let pin_version = table.version.pin();
         #[cfg(feature = "verif")]
